@@ -66,7 +66,7 @@ class TypeMatchError(MatchError, TypeError):
     def __copy__(self):
         # __init__ args = (actual, expected)
         # self.args = (fmt_str, expected, actual)
-        return TypeMatchError(self.args[2], self.args[1])
+        return type(self)(self.args[2], self.args[1])
 
 
 class Match:
